@@ -7,6 +7,7 @@ import (
 	"crypto/tls"
 	"errors"
 	"fmt"
+	"github.com/cloudwego/hertz/pkg/common/config"
 	"io"
 	"net"
 	"net/http"
@@ -288,6 +289,7 @@ func installYield() {
 var plans = []string{"ok", "ok", "ok", "ok", "bigok", "bigstall", "okchunked", "okclose", "closebefore", "midheader", "midbody", "stall", "okthenclose"}
 
 type doRec struct {
+	reqTimeout       time.Duration
 	id, plan, method string
 	cancelled        bool
 	err              error
@@ -382,6 +384,13 @@ func oneRun(w *mon.W, c *mon.Case) {
 				req.Header.Set("X-Plan", rec.plan)
 				if rec.method != "GET" {
 					req.SetBodyString("b")
+				}
+				// some calls carry a request timeout of their own, shorter or (much) longer than
+				// the client's read timeout: the call is bounded by the smaller of the two
+				rec.reqTimeout = 0
+				if gr.Chance(5) {
+					rec.reqTimeout = time.Duration(gr.Int(40, 3000)) * time.Millisecond
+					req.SetOptions(config.WithRequestTimeout(rec.reqTimeout))
 				}
 				ctx := context.Background()
 				if gr.Chance(10) {
@@ -539,8 +548,17 @@ func oneRun(w *mon.W, c *mon.Case) {
 					return
 				}
 			}
-			if rec.elapsed > readTimeout+opts.MaxConnWaitTimeout+2*time.Second {
-				fail("timeout-bound", "Do(%s, plan %s) took %v with read timeout %v", rec.id, rec.plan, rec.elapsed, readTimeout)
+			bound := readTimeout
+			if rec.reqTimeout > 0 && rec.reqTimeout < bound {
+				bound = rec.reqTimeout
+			}
+			if rec.reqTimeout > 0 {
+				w.Count("calls_with_request_timeout", 1)
+			}
+			// (a streamed body is read by the caller after Do: one more read timeout; closing a
+			// stalled stream drains under yet another)
+			if rec.elapsed > 3*bound+opts.MaxConnWaitTimeout+1500*time.Millisecond {
+				fail("timeout-bound", "Do(%s, plan %s) took %v with read timeout %v and request timeout %v", rec.id, rec.plan, rec.elapsed, readTimeout, rec.reqTimeout)
 				return
 			}
 			if v, ok := d.recv.Load(rec.id); ok {
